@@ -57,6 +57,8 @@ class WrapProxy(BaseProxy):
         func, args, kwargs = request
         ctx = self.ctx
         if func not in ("step", "get_data") or not ctx.running:
+            if func == "setup_done":
+                ctx.record({"k": "SETUP", "s": self.sid})
             return await self.inner.send(request)
         loop = asyncio.get_running_loop()
         fut = loop.create_future()
